@@ -70,7 +70,7 @@ ASSUMPTIONS = [
 PROBES = [
     "family.JSONPathSyntaxError", "family.JSONPathTypeError", "family.JSONPathNameError", "family.JSONPathIndexError",
     "family.JSONPointerError", "family.JSONPatchError", "family.JSONDecodeError", "family.UnicodeDecodeError",
-    "large_document", "corruption_still_decodable", "r_used.path", "r_used.pointer", "stdin_document", "o_sink", "ok_nonempty",
+    "empty_expression", "large_document", "corruption_still_decodable", "r_used.path", "r_used.pointer", "stdin_document", "o_sink", "ok_nonempty",
 ]
 
 _ENV = jsonpath.JSONPathEnvironment()
@@ -191,6 +191,8 @@ def generate(seed: int, config: str, tier: str) -> Dict[str, Any]:
                 patch = patch + [{"op": "test", "path": "/__nope__/x", "value": 1}]
     if invalid_expr and cmd != "patch":
         expr = _mutate_expr(rng, cmd, expr)
+    elif cmd != "patch" and rng.random() < 0.05:
+        expr = ""  # the empty query / pointer is valid: it selects the whole document
     if expr.startswith("-"):
         expr = "/" + expr
     faults: List[List[Any]] = []
@@ -365,6 +367,8 @@ def execute(spec: Dict[str, Any], ctx: Ctx) -> None:
         ctx.count(f"probe.r_used.{cmd}")
     if plan["out"] == "file":
         ctx.count("probe.o_sink")
+    if cmd != "patch" and (plan["expr"] + (plan["expr_suffix"] if plan["expr_src"] == "file" else "x")).strip() == "":
+        ctx.count("probe.empty_expression")
     argv = _argv(plan)
     debug = "--debug" in plan["gopts"]
     pretty = "--pretty" in plan["gopts"]
